@@ -103,17 +103,29 @@ def _replace(obj, **kwargs):
 
 
 class _VarArgsRemover(ast.NodeTransformer):
-    def __init__(self, drop_args, drop_kwargs):
+    def __init__(self, drop_args, drop_kwargs, vararg_name=None, kwarg_name=None):
         self.drop_args = drop_args
         self.drop_kwargs = drop_kwargs
+        # Only the method's own '*args'/'**kwargs' are dropped from calls, not
+        # every starred argument (f(*children) has nothing to do with them).
+        self.vararg_name = vararg_name
+        self.kwarg_name = kwarg_name
 
     def visit_Call(self, node):  # noqa: N802
         node = self.generic_visit(node)
+
+        def is_name(expr, name):
+            return isinstance(expr, ast.Name) and expr.id == name
+
         return _replace(node,
                        args=[arg for arg in node.args
-                          if not self.drop_args or not isinstance(arg, ast.Starred)],
+                          if not (self.drop_args
+                              and isinstance(arg, ast.Starred)
+                              and is_name(arg.value, self.vararg_name))],
                        keywords=[kw for kw in node.keywords
-                          if not self.drop_kwargs or kw.arg is not None])
+                          if not (self.drop_kwargs
+                              and kw.arg is None
+                              and is_name(kw.value, self.kwarg_name))])
 
 
 class _RecInliner(ast.NodeTransformer):
@@ -321,13 +333,17 @@ def optimize_mapper(
             # optimized in this process: rewrite a copy, not the original.
             mdef = deepcopy(method_defs[mname])
 
+            vararg_name = mdef.args.vararg.arg if mdef.args.vararg else None
+            kwarg_name = mdef.args.kwarg.arg if mdef.args.kwarg else None
+
             mdef = _replace(mdef,
                     args=_replace(mdef.args,
                         vararg=None if drop_args else mdef.args.vararg,
                         kwarg=None if drop_kwargs else mdef.args.kwarg))
 
             mdef = _VarArgsRemover(
-                    drop_args=drop_args, drop_kwargs=drop_kwargs).visit(mdef)
+                    drop_args=drop_args, drop_kwargs=drop_kwargs,
+                    vararg_name=vararg_name, kwarg_name=kwarg_name).visit(mdef)
 
             if cache_key_expr is not None:
                 mdef = _CacheKeyInliner(cache_key_expr=cache_key_expr).visit(mdef)
